@@ -12,7 +12,10 @@ from harness import tlc, gen  # noqa: E402
 from harness.encode import enc_val  # noqa: E402
 
 POOL = [0, 1, -1, 2, 3, True, False, 0.0, 1.0, 2.5, -1.5, None, "", "a", "ab", "b", "1", " 7 ", "A", [], [1], [1, "a"],
-        ["a", 1], [1, 2], [[1]], {}, {"a": 1}, {1: 2}, {"a": 1, "b": "a"}, (), (1, "a"), int, str, bool, dict]
+        ["a", 1], [1, 2], [[1]], {}, {"a": 1}, {1: 2}, {"a": 1, "b": "a"}, (), (1, "a"), int, str, bool, dict,
+        # the edges of the number universe: ints up to 2^31 - 1, floats up to 2^27 on the 1/8 grid
+        1700000000, 1700000001, -1700000000, 2 ** 31 - 1, -(2 ** 31 - 1), 2 ** 27, 2 ** 27 + 1, 99999999, 16777216.5,
+        134217000.0, -134217000.125, 1000000.5, 0.125, -0.125, 7, 8, 0.5, 1024.0, [1700000000], (2 ** 27, 1.0)]
 EPS = 1e-8
 
 
@@ -50,18 +53,25 @@ def main():
             add("len", a, o="T", n=len(a))
         except TypeError:
             add("len", a, o="E")
-        for lo, hi in [(0, 3), (-1, 2), (True, 5), (1.0, 3), ("a", 2), (2, 0)]:
+        for lo, hi in [(0, 3), (-1, 2), (True, 5), (1.0, 3), ("a", 2), (2, 0), (1700000000, 2 ** 31 - 1), (-(2 ** 31 - 1), 0),
+                       (2 ** 27, 2 ** 27 + 1), (1700000000, 1700000002)]:
+            if isinstance(lo, int) and isinstance(hi, int) and hi - lo > 10 ** 6 and not isinstance(a, int):
+                continue            # CPython scans a range item by item for a non-int: minutes
             add("in_range", a, lo, hi, o=obs(lambda: a in range(lo, hi)))
-        for v, tol in [(1, EPS), (1.5, 0.5), (0, 1), ("a", 1), (1, "x"), (2, 0.125), (True, 2), (1, None)]:
+        for v, tol in [(1, EPS), (1.5, 0.5), (0, 1), ("a", 1), (1, "x"), (2, 0.125), (True, 2), (1, None),
+                       (1700000000, EPS), (1700000000, 1.5), (-1700000000, 2), (2 ** 31 - 1, 2 ** 31 - 1), (2 ** 27, 0.125),
+                       (1, 0), (1, -1), (1700000001, 1), (0, 1700000000), (-(2 ** 31 - 1), 2 ** 31 - 1), (16777216.5, 0.5)]:
             add("approx", a, v, tol, o=obs(lambda: abs(a - v) < tol))
-        for cls in [[int], [str, float], [bool], [int, 3], [3, int], [dict, list], [], [type(None)]]:
+        for cls in [[int], [str, float], [bool], [int, 3], [3, int], [dict, list], [], [type(None)],
+                    [(int, float)], [str, (list, (int,))], [(), bool], [(int, 3)], [[int]], [(str,), 3]]:
             add("isinstance", a, list(cls), o=obs(lambda: isinstance(a, tuple(cls))))
-    for s in ["", "0", "7", " 7 ", "-2", "+5", "1_0", "_1", "1_", "1__0", "x3", "1.5", "007", "- 1", "12345678", "true", " "]:
+    for s in ["", "0", "7", " 7 ", "-2", "+5", "1_0", "_1", "1_", "1__0", "x3", "1.5", "007", "- 1", "12345678", "true", " "] + \
+            gen.STRS_WIDE + ["\t", "\n 7\t", "\x1c7\x1d", "7\x1e\x1f", "\r+1_1\r", " -0 ", "+-1", "1 _0", "\x0c"]:
         try:
             add("int", s, o="T", n=int(s))
         except ValueError:
             add("int", s, o="X")
-        add("strip", s, s.strip(" \n"), o="T")
+        add("strip", s, s.strip(), o="T")
         add("lower", s, s.lower(), o="T")
     for s in ["a.b", "value.dtype.eq", "", ".", "a..b", "abc", ".a", "a."]:
         add("split", s, s.split("."), o="T")
